@@ -23,12 +23,15 @@ type thread struct {
 	started bool
 	virtual bool
 	alias   int
+	obj     any
 }
 
 // Step is one element of the lock-step trace.
 type Step struct {
-	Tid   int
+	Tid   int // logical thread (alias if set)
+	Real  int // the goroutine's own thread id
 	Label string
+	Obj   any // the object the step operates on (YO), e.g. the mailbox
 	Snap  any
 }
 
@@ -38,6 +41,8 @@ type Sched struct {
 	current  *thread
 	Trace    []Step
 	Snapshot func() any
+	// SnapshotStep, if set, is used instead of Snapshot and is told which step just ran.
+	SnapshotStep func(real int, label string, obj any) any
 	locks    map[any]bool
 	Deadlock bool
 	// chooser picks among enabled thread ids; returns the chosen id
@@ -101,8 +106,13 @@ func Alias(id int) {
 }
 
 func (s *Sched) park(label string, enabled func() bool) {
+	s.parkObj(label, nil, enabled)
+}
+
+func (s *Sched) parkObj(label string, obj any, enabled func() bool) {
 	t := s.current
 	t.label = label
+	t.obj = obj
 	t.enabled = enabled
 	s.notify <- t
 	<-t.resume
@@ -121,6 +131,14 @@ func Yield(label string) {
 // and short-circuiting of the surrounding expression are preserved.
 func Y[F any](label string, f F) F {
 	Yield(label)
+	return f
+}
+
+// YO is Y with the object the step operates on (reported in the trace).
+func YO[F any](label string, obj any, f F) F {
+	if cur != nil && cur.current != nil {
+		cur.parkObj(label, obj, nil)
+	}
 	return f
 }
 
@@ -229,6 +247,8 @@ func (s *Sched) Run() {
 		t := s.threads[id]
 		last = id
 		label := t.label
+		obj := t.obj
+		t.obj = nil
 		tid := t.id
 		if t.alias >= 0 {
 			tid = t.alias
@@ -238,10 +258,12 @@ func (s *Sched) Run() {
 		<-s.notify // the thread parked again or finished
 		s.current = nil
 		var snap any
-		if s.Snapshot != nil {
+		if s.SnapshotStep != nil {
+			snap = s.SnapshotStep(t.id, label, obj)
+		} else if s.Snapshot != nil {
 			snap = s.Snapshot()
 		}
-		s.Trace = append(s.Trace, Step{Tid: tid, Label: label, Snap: snap})
+		s.Trace = append(s.Trace, Step{Tid: tid, Real: t.id, Label: label, Obj: obj, Snap: snap})
 	}
 }
 
